@@ -60,6 +60,38 @@ CHECK_DEADLOCK FALSE
         if not r.ok:
             raise ToolError(f"specification check failed for C20: {r.violated or r.eval_error}\n{r.out[-3000:]}")
         plans = []
+    if prop == "C09":
+        # power loss after a failed call: BitcaskFault.tla under sync=always, every per-file cut in every state
+        # (one process: a restart forgets which file a failure left unsynced, DESIGN section 8); and the same
+        # with the leftover of a failed merge forgotten, which must violate the invariant (vacuity guard)
+        tmpl = """SPECIFICATION FSpec
+CONSTANTS
+  Keys = {keys}
+  Vals = {vals}
+  KLen <- MCKLen
+  VLen <- MCVLen
+  Configs <- {configs}
+  MaxOps = 4
+  MaxCrashes = 0
+  Ops = {{"put", "del", "merge"}}
+  Deviations = {{}}
+  MaxFaults = 1
+  FDev = {fdev}
+CONSTRAINT OpsBound
+INVARIANTS FaultPowerLossSafe
+CHECK_DEADLOCK FALSE
+"""
+        cfg = write_cfg(f"mc_faultpower_{os.getpid()}.cfg", tmpl.format(keys=storage.K2, vals=storage.V2, configs="MCConfigsFaultSync", fdev="{}"))
+        r = tlc("MC_Fault.tla", cfg, workers=NCPU, timeout=3000, xmx="16g", metatag=f"mc-faultpower-{os.getpid()}")
+        v.add_tlc("BitcaskFault.tla sync=always: power loss (every per-file cut) after one failed call, ops<=4 (put/del/merge), 9 configs", r)
+        if not r.ok:
+            raise ToolError(f"specification check failed for C09 (FaultPowerLossSafe): {r.violated or r.eval_error}\n{r.out[-3000:]}")
+        cfg = write_cfg(f"mc_faultpower_dev_{os.getpid()}.cfg", tmpl.format(keys=storage.K2, vals=storage.V2, configs="MCConfigsFaultSync0",
+                                                                             fdev='{"LeftoverForgotten"}'))
+        r = tlc("MC_Fault.tla", cfg, workers=NCPU, timeout=3000, xmx="16g", metatag=f"mc-faultpower-dev-{os.getpid()}")
+        if r.violated != "FaultPowerLossSafe":
+            raise ToolError(f"BitcaskFault.tla with the leftover forgotten should violate FaultPowerLossSafe, got {r.violated or 'no violation'}")
+        v.cov.setdefault("deviations_rejected_by_the_model", []).append("LeftoverForgotten -> FaultPowerLossSafe")
     for label, invs, maxops, configs, crashes, props in plans:
         cfg = storage.mc_cfg(f"mc_{prop}_{maxops}.cfg", invs, maxops, configs, crashes=crashes, props=props)
         r = tlc("MC_Seq.tla", cfg, workers=NCPU, timeout=3000, xmx="16g", metatag=f"mc-{prop}-{os.getpid()}")
@@ -95,7 +127,7 @@ def gen_behaviours(v, tier, tag, sync, configs=None, maxops=None):
 
 def random_behaviours(tag, sync, runs, length, scope):
     """Random workloads; scope 'size' uses entries around and above the 8 KiB write buffer."""
-    rnd = random.Random(seed() * 7919 + hash(scope) % 1000)
+    rnd = random.Random(seed() * 7919 + sum(scope.encode()) % 1000)   # (str hashes differ from process to process)
     if scope == "size":
         keys = {"k1": 0, "k2": 3, "k3": 9000}
         vals = {"v0": 0, "v1": 1, "v2": 8140, "v3": 8167, "v4": 8168, "v5": 8192, "v6": 20000}
@@ -122,10 +154,13 @@ def random_behaviours(tag, sync, runs, length, scope):
                     ops.append(["put", rnd.choice(list(keys)), rnd.choice(list(vals))])
                 elif x < 0.72:
                     ops.append(["del", rnd.choice(list(keys))])
-                elif x < 0.9:
+                elif x < 0.88:
                     ops.append(["merge"])
-                else:
+                elif x < 0.96 or scope == "size":
                     ops.append(["reopen"])
+                else:
+                    # the wall clock is stepped (entries carry the time of their write; nothing may depend on it)
+                    ops.append(["clock", rnd.choice(["-259200", "-2", "2", "3600", "34560000"])])
             f.write(json.dumps({"id": f"r{scope}{i}", "cfg": cfg, "ops": ops}) + "\n")
     return out, runs
 
@@ -268,6 +303,8 @@ def validate(v, prop, files, tag):
             if len(v.violations) >= 5:
                 continue
             ops = [[e.get("op")] + [e[x] for x in ("k", "v") if x in e] for e in evs if e.get("ev") == "inv" and e.get("op") != "open"]
+            if evs and evs[0].get("ops"):
+                ops = evs[0]["ops"]    # the whole behaviour, wall-clock steps included
             payload = {"property": prop, "invariant": r.violated, "why": why, "trace_file": f, "line": line, "run": run_id,
                        "seed": seed(), "header": hdr, "mode": PROPS[prop]["mode"],
                        "behaviour": {"cfg": evs[0].get("cfg") if evs else None, "ops": ops},
